@@ -417,6 +417,7 @@ def rule_consonance(ctx, mod):
             want_default = False if name == "is_dissonant" else True
             ctx.check(dflt is want_default, R, "%s.default" % name, fi.where(), "%s default flag" % name,
                       "default of %s is %r, documented behaviour needs %r" % (fi.params[2], dflt, want_default))
+        fallback = False
         for m in range(12):
             for flag in ((True, False) if has_flag else (None,)):
                 def meas(it, args, kwargs, node, m=m):
@@ -424,10 +425,36 @@ def rule_consonance(ctx, mod):
                         return m
                     raise CannotDecide("measure called on %r" % (args,))
                 args = [a, b] + ([flag] if has_flag else [])
-                paths = paths_of(ctx.repo, fi, args, summaries={M + ".measure": meas})
+                try:
+                    paths = paths_of(ctx.repo, fi, args, summaries={M + ".measure": meas})
+                except CannotDecide as e:
+                    fallback = str(e)
+                    break
                 want = bool(oracle(m, flag))
                 ok = len(paths) == 1 and paths[0].kind == "return" and (paths[0].value is want)
                 ctx.check(ok, R, "%s[m=%d,flag=%s]" % (name, m, flag), fi.where(),
                           "%s at measure %d, flag %s" % (name, m, flag),
                           "%s gives %r for a measure of %d semitones with flag=%s, the statement requires %r"
                           % (name, [p.value for p in paths], m, flag, want))
+            if fallback:
+                break
+        if fallback:
+            # the predicate looks at more than the measure of its two notes (e.g. at the interval's name): judge it on
+            # concrete pairs -- three first notes x all 35 spellings up to double accidentals -- with the real code
+            ctx.note(R, "%s does not decide on measure() alone (%s); specialised to 105 concrete note pairs" % (name, short(fallback, 80)))
+            names35 = [L + acc for L in LETTERS for acc in ("", "#", "b", "##", "bb")]
+            for n1 in ("C", "F#", "Bb"):
+                bad = []
+                for n2 in names35:
+                    m = (nd.pitch_of_concrete(n2) - nd.pitch_of_concrete(n1)) % 12
+                    for flag in ((True, False) if has_flag else (None,)):
+                        try:
+                            paths = paths_of(ctx.repo, fi, [n1, n2] + ([flag] if has_flag else []))
+                        except CannotDecide as e:
+                            raise AnalysisError("%s(%r, %r): %s" % (name, n1, n2, e))
+                        want = bool(oracle(m, flag))
+                        if not (len(paths) == 1 and paths[0].kind == "return" and paths[0].value is want):
+                            bad.append((n2, m, flag, [(p.kind, p.value) for p in paths], want))
+                ctx.check(not bad, R, "%s[%s,*]" % (name, n1), fi.where(), "%s(%r, <35 spellings>)" % (name, n1),
+                          "%d of the pairs answer differently from the statement's table on measure(): e.g. %s vs %s (measure %s, flag %s) gives %s, required %s"
+                          % ((len(bad),) + ((n1,) + bad[0][:1] + bad[0][1:3] + (bad[0][3], bad[0][4]) if bad else ("", "", "", "", "", ""))))
